@@ -203,7 +203,10 @@ def gen_div_op(rng, ncontents):
     return {"op": "div", "c": rng.randrange(ncontents), "ckalgo": spell(rng, canon),
             "ck": rng.choice(["ok", "ok", "upper", "mixed", "wrong", "wronglen", "wrongcase"]),
             "size": rng.choice(["ok", "ok", "ok", "wrong", "wrong-"]),
-            "meta_has_algo": rng.random() < 0.3}
+            "meta_has_algo": rng.random() < 0.3,
+            # which ObjectMetadata object the caller passes: a fresh one, the one it passed last time for this
+            # content, or the very object store_object returned for this content
+            "reuse_om": rng.choice([None, "inst", "inst", "ret"])}
 
 
 def gen_seq_program(seed, prof, tier="quick", mp=None, length=None):
@@ -273,7 +276,13 @@ def gen_seq_program(seed, prof, tier="quick", mp=None, length=None):
         elif k == "delete":
             ops.append({"op": "delete", "pid": rng.randrange(npids)})
         elif k == "div":
-            ops.append(gen_div_op(rng, ncont))
+            op = gen_div_op(rng, ncont)
+            prev = [o for o in ops if o["op"] == "div"]
+            if prev and rng.random() < 0.35:
+                # validate the same content again, naming the same algorithm (another spelling of the checksum)
+                op["c"], op["ckalgo"], op["reuse_om"] = prev[-1]["c"], prev[-1]["ckalgo"], prev[-1].get("reuse_om") or "inst"
+                op["meta_has_algo"] = prev[-1].get("meta_has_algo", False)
+            ops.append(op)
         elif k == "retrieve":
             ops.append({"op": "retrieve", "pid": rng.randrange(npids)})
         elif k == "hexdigest":
